@@ -12,7 +12,9 @@ out = ["# Seeded breaking changes", "",
        "Each directory holds `patch.diff` (apply with `git -C /repo apply`), `demo.py` (exits non-zero with the change, 0 without) and `meta.json`.",
        "All were written by independent sub-agents that were given only the text of one property and a scratch worktree of /repo (nothing from /verif);",
        "each was confirmed by me in a scratch worktree (patch applies; pinned suite still 42 pass / same 10 fail; demo fails with, passes without)",
-       "and then applied to /repo, the quick checks run, and /repo restored (`tools/seed_eval.py`).  None is committed to /repo.", "",
+       "and then applied to /repo, the quick checks run, and /repo restored (`tools/seed_eval.py`).  None is committed to /repo.",
+       "`prompts/` keeps one example (property C05) of the task text the agents of each round were given; `round<k>_first_run.log` is the verdict of the",
+       "checks as they were BEFORE that round's strengthening (DESIGN.md section 11).", "",
        "| id | property | change | needs | confirmed | caught by (quick tier) | run but not caught by |", "|---|---|---|---|---|---|---|"]
 for r in rows:
     out.append("| " + " | ".join(r) + " |")
